@@ -6,6 +6,7 @@ by data flow (what a variable was assigned from), not by identifiers.
 """
 import ast
 import builtins
+import re
 
 WRITER_MODE = "string_sanitization_mode"
 READER_MODE = "chunked_reading_mode"
@@ -209,8 +210,9 @@ def s_defuse(skel, extra_known=()):
         for fn in methods_of(cls).values():
             du = DefUse(imported | top_names | set(extra_known), lits)
             for name, line in du.run(fn):
-                findings.append(("S-defuse", "%s.%s" % (cname, fn.name), "name %s is read at line %d but not bound on every path "
-                                 "(not a parameter, local, builtin or import of this file)" % (name, line)))
+                code = "unbound-%s-in-%s" % ("placeholder" if name.startswith("h_") else re.sub(r"\W", "", name), fn.name.strip("_"))
+                findings.append(("S-defuse", "%s.%s" % (cname, fn.name), "[%s] name %s is read at line %d but not bound on every path "
+                                 "(not a parameter, local, builtin or import of this file)" % (code, name, line)))
         # annotations and class-level expressions use imported names too
         for st in cls.body:
             if isinstance(st, ast.AnnAssign):
